@@ -28,8 +28,10 @@ INDEP = {
     "T14": {"i": 0, "j": 1},
     "T16": {"i": 0},
     "T18": {"k": 1},
+    "T7p": {"i": 0},
+    "T21": {"i": 0},
 }
-REDUCED = {"T4": ["i", "j"], "T5": ["i", "j"], "T8": ["i"], "T12": ["i", "j"], "T10": ["j"], "T18": ["i"]}
+REDUCED = {"T4": ["i", "j"], "T5": ["i", "j"], "T8": ["i"], "T12": ["i", "j"], "T10": ["j"], "T18": ["i"], "T21": ["j"]}
 
 
 NMODES = 7
